@@ -130,6 +130,16 @@ def gen(rng, tier):
         n = len(t)
         for cuts in ([n // 2], [n // 3, 2 * n // 3], sorted(set(rng.randrange(1, n) for _ in range(4))), [1000] if n > 1001 else [n // 2]):
             out.append(mk(32, fl, t, cuts, "long-" + kindl))
+    # very long strings / names (the scratch buffer grows beyond 64 KiB) cut inside an escape sequence, a surrogate pair,
+    # or right after the long run (not modelled: the list-based model is quadratic; judged by split-vs-whole on the library)
+    for big in ([70000] if tier == "quick" else [65535, 65536, 70000, 200000]):
+        for esc, at in ((b"\\n", 1), (b"\\u00e9", 1), (b"\\u00e9", 3), (b"\\ud83d\\ude00", 6), (b"\\ud83d\\ude00", 7), (b"\\\\", 1)):
+            for shape in (0, 1):
+                body = b"s" * big + esc + b"tail"
+                t = (b'"' + body + b'"') if shape == 0 else (b'{"' + body + b'":1}')
+                c0 = t.index(esc) + at
+                out.append(mk(32, 0, t, [c0], "huge-string-escape-cut"))
+                out.append(mk(32, STRICT, t, [t.index(esc), c0], "huge-string-escape-cut"))
     # streams of concatenated documents, resumed at the reported end position, whole vs chunked
     nst = 250 if tier == "quick" else 6000
     for i in range(nst):
